@@ -386,3 +386,28 @@ def find_used_modules_recursion(prop="C06", replay=None):
                 r.replay = replay()
         out.append(r)
     return out
+
+
+def dict2obj_constructs(prop="C16", replay=None):
+    """dict2obj turns one description of modules.json into one *new* entity object carrying that description's URL.  Names are unique only within a scope of the exporting
+    project (A may have `init` in two modules, `n` in two types), so an object built for one description must never be handed out for another: every `return` of dict2obj
+    returns the object constructed in the same call."""
+    import ast
+    from harness import loader
+    from harness.core import OR, PROVED, REFUTED, UNKNOWN
+    oid = f"{prop}.S.dict2obj.every_description_gets_an_object_of_its_own"
+    fn = loader.find_def("ford.external_project", "dict2obj")
+    built = {n.targets[0].id for n in ast.walk(fn) if isinstance(n, ast.Assign) and len(n.targets) == 1 and isinstance(n.targets[0], ast.Name) and isinstance(n.value, ast.Call)
+             and ("ENTITIES[" in ast.unparse(n.value.func) or ast.unparse(n.value.func) in ("entity_class", "cls"))}
+    rets = [n for n in ast.walk(fn) if isinstance(n, ast.Return) and n.value is not None]
+    if not built or not rets:
+        return [OR(id=oid, status=UNKNOWN, kind="S", target="ford.external_project.dict2obj", detail=f"constructor assignment / return not found ({sorted(built)}, {len(rets)} returns)")]
+    bad = [ast.unparse(r) for r in rets if not (isinstance(r.value, ast.Name) and r.value.id in built)]
+    r = OR(id=oid, status=REFUTED if bad else PROVED, kind="S", role="post", backend="ast", target="ford.external_project.dict2obj",
+           desc=f"every return of dict2obj hands out the object it constructed ({', '.join(sorted(built))})")
+    if bad:
+        r.witness = {"other_returns": bad}
+        r.detail = "an object built for another description is returned: same-named entities of different scopes share one object and one URL"
+        if replay:
+            r.replay = replay()
+    return [r]
